@@ -213,10 +213,16 @@ func (la *LeapArray) currentBucketOfTime(now uint64, bg BucketGenerator) (*Bucke
 			// reset BucketWrap
 			util.VerifYield("la.trylock")
 			if la.updateLock.TryLock() {
-				old = bg.ResetBucketTo(old, bucketStart)
+				// Re-check under the lock: another goroutine may have refreshed this bucket since we
+				// read its start time; resetting it again would wipe what has been recorded meanwhile.
+				if bucketStart > atomic.LoadUint64(&old.BucketStart) {
+					old = bg.ResetBucketTo(old, bucketStart)
+					util.VerifYield("la.unlock")
+					la.updateLock.Unlock()
+					return old, nil
+				}
 				util.VerifYield("la.unlock")
 				la.updateLock.Unlock()
-				return old, nil
 			} else {
 				runtime.Gosched()
 			}
